@@ -17,7 +17,7 @@ from vf.core import Ctx, Recorder
 BS = 64
 SIZES = [0, 1, BS - 1, BS, BS + 1, 5 * BS]
 NO_BODY_METHODS = {"GET", "HEAD", "DELETE", "TRACE", "OPTIONS", "CONNECT"}
-KINDS = ["none", "bytes", "bytearray", "memoryview", "array", "str", "str-nonascii", "bytesio", "stringio", "binfile", "binfile-offset", "binfile-eof", "textfile", "readonly", "tell-raises", "unseekable", "generator", "list", "list-empties", "iter-str", "tuple-bytes", "shortreads", "shortreads-raw"]
+KINDS = ["none", "bytes", "bytearray", "memoryview", "array", "array-H", "memoryview-I", "str", "str-nonascii", "bytesio", "stringio", "binfile", "binfile-offset", "binfile-eof", "textfile", "readonly", "tell-raises", "unseekable", "generator", "list", "list-empties", "iter-str", "tuple-bytes", "shortreads", "shortreads-raw"]
 ONE_SHOT = {"generator", "readonly"}
 METHODS = ["GET", "HEAD", "DELETE", "OPTIONS", "POST", "PUT", "PATCH", "QUERY"]
 HISTORIES = ["ok", "reset-ok", "eof-ok", "503-ok", "307-ok", "308-ok", "301-ok", "303-ok", "503-307-ok", "sendreset0-ok", "sendreset1-ok", "503-503-ok", "307-307-ok"]
@@ -110,6 +110,13 @@ def make_body(kind: str, size: int, tmpdir: str) -> tuple[typing.Any, bytes, typ
         return memoryview(data), data, noop
     if kind == "array":
         return array.array("B", data), data, noop
+    if kind == "array-H":
+        # buffer with 2-byte items: lengths must be counted in bytes, not items
+        d2 = data + b"\x00" * (len(data) % 2)
+        return array.array("H", d2), d2, noop
+    if kind == "memoryview-I":
+        d4 = data + b"\x00" * (-len(data) % 4)
+        return memoryview(d4).cast("I"), d4, noop
     if kind == "str":
         return data.decode("ascii"), data, noop
     if kind == "str-nonascii":
@@ -299,7 +306,7 @@ def run_case(rec: Recorder, kind: str, size: int, method: str, chunked: bool, hi
         return
     if unrewindable_raised:
         rec.count("unrewindable_raised")
-        if kind in ("bytes", "bytearray", "memoryview", "array", "str", "str-nonascii", "bytesio", "stringio", "binfile", "binfile-offset", "binfile-eof", "textfile", "list", "list-empties", "iter-str", "tuple-bytes", "none", "shortreads", "shortreads-raw"):
+        if kind in ("bytes", "bytearray", "memoryview", "array", "array-H", "memoryview-I", "str", "str-nonascii", "bytesio", "stringio", "binfile", "binfile-offset", "binfile-eof", "textfile", "list", "list-empties", "iter-str", "tuple-bytes", "none", "shortreads", "shortreads-raw"):
             rec.fail(case, "unrewindable-for-rewindable-body", obs, f"UnrewindableBodyError for body kind {kind}")
 
 
